@@ -206,6 +206,12 @@ class SymMode(TorchDispatchMode):
             elif isinstance(a, (list, tuple)):
                 tens.extend(x for x in a if isinstance(x, torch.Tensor))
         anysym = any(self.is_sym(t) for t in tens)
+        if anysym and func.overloadpacket not in HANDLERS and torch._C._dispatch_has_kernel_for_dispatch_key(func.name(), "CompositeImplicitAutograd"):
+            # composite ops reach a mode un-decomposed when called from inside a kernel: run the decomposition under the mode
+            with self:
+                r = func.decompose(*args, **kwargs)
+            if r is not NotImplemented:
+                return r
         mutable = func._schema.is_mutable
         if mutable and self.protected:
             self._check_protected(func, args, kwargs)
